@@ -12,14 +12,15 @@ def main(tier):
     segments.line_siblings(P, rep)
     segments.kernel_interpolation(P, rep)
     segments.nearest_segment_selection(P, rep)
+    rep.attempt(frame.frame_axes, P, rep)            # the local frame: horizontal axis = up direction rotated about the trench direction
     rep.attempt(frame.arc_segment, P, rep)           # ... and one arc segment the circular construction
     rep.attempt(frame.straight_segment, P, rep)      # one straight segment of the slab frame equals the planar construction
     dep.culling(P, rep)      # membership iff the distances are in range: the shortcuts in front must not discard members
     dep.accumulators(P, rep)
     rep.assumptions.append("of Utilities::distance_point_from_curved_planes the per-segment step (straight line / circular arc: end point, attribution "
-                           "range, signed distance, along distance, reference depth) and the selection of the nearest segment are decided; the "
-                           "construction of the local 2D frame in front of the segment loop (closest point on the trench, spherical corrections) "
-                           "and the Newton closest-point search are NOT decided")
+                           "range, signed distance, along distance, reference depth) and the selection of the nearest segment are decided; of the "
+                           "local 2D frame the rotated axis of the below-the-trench case and the common origin of the two projections are decided; "
+                           "the closest point on the trench, the spherical corrections and the Newton closest-point search are NOT decided")
     # the answer does not depend on what was queried before (no cache that outlives a query: a necessary condition for a
     # statement about 'all worlds and all points', which includes a second world in the same process)
     pure.run(P, rep, pure.query_roots(P))
